@@ -99,5 +99,8 @@ def check(prog, path, struct_path):
                 for m in re.finditer(r'\[".", \d+, "(\w+)"\]', json.dumps(s_[2])):
                     if m.group(1) in names:
                         got.add(m.group(1))
-        out.append({"fn": path, "line": c.line, "label": word, "template": tpl.strip(), "counters_read_next": sorted(got), "ok": word in got and not (got - {word})})
+        out.append({"fn": path, "line": c.line, "label": word, "template": tpl.strip(), "counters_read_next": sorted(got),
+                    # judged only when a counter is read in the label's region: a value that reaches the print through
+                    # a local variable assigned earlier is not followed (undecided, not an alarm)
+                    "ok": (not got) or (word in got and not (got - {word}))})
     return out
